@@ -523,6 +523,30 @@ func (w *Wallet) HTLCLockedProofs(
 	return lockedProofs, nil
 }
 
+// verifyProofsDLEQ verifies the DLEQ of each proof that has one with the keys of
+// the keyset the proof belongs to, which is not always the active keyset.
+func verifyProofsDLEQ(proofs cashu.Proofs, mintURL string, activeKeyset *crypto.WalletKeyset) bool {
+	keysets := map[string]crypto.WalletKeyset{activeKeyset.Id: *activeKeyset}
+	for _, proof := range proofs {
+		if proof.DLEQ == nil {
+			continue
+		}
+		keyset, ok := keysets[proof.Id]
+		if !ok {
+			keys, err := GetKeysetKeys(mintURL, proof.Id)
+			if err != nil {
+				return false
+			}
+			keyset = crypto.WalletKeyset{Id: proof.Id, PublicKeys: keys}
+			keysets[proof.Id] = keyset
+		}
+		if !nut12.VerifyProofsDLEQ(cashu.Proofs{proof}, keyset) {
+			return false
+		}
+	}
+	return true
+}
+
 // Receives Cashu token. If swap is true, it will swap the funds to the configured default mint.
 // If false, it will add the proofs from the mint and add that mint to the list of trusted mints.
 func (w *Wallet) Receive(token cashu.Token, swapToTrusted bool) (uint64, error) {
@@ -535,7 +559,7 @@ func (w *Wallet) Receive(token cashu.Token, swapToTrusted bool) (uint64, error) 
 	}
 
 	// verify DLEQ in proofs if present
-	if !nut12.VerifyProofsDLEQ(proofsToSwap, *keyset) {
+	if !verifyProofsDLEQ(proofsToSwap, tokenMint, keyset) {
 		return 0, errors.New("invalid DLEQ proof")
 	}
 
@@ -623,7 +647,7 @@ func (w *Wallet) ReceiveHTLC(token cashu.Token, preimage string) (uint64, error)
 		return 0, fmt.Errorf("could not get active keyset: %v", err)
 	}
 	// verify DLEQ in proofs if present
-	if !nut12.VerifyProofsDLEQ(proofs, *keyset) {
+	if !verifyProofsDLEQ(proofs, tokenMint, keyset) {
 		return 0, errors.New("invalid DLEQ proof")
 	}
 
